@@ -108,6 +108,7 @@ Fixpoint item_eqb (a b : item) : bool :=
   | _, _ => false
   end.
 Definition k_maven_printable : bytes := [115;118;109;95;109;97;118;101;110;95;112;114;105;110;116;97;98;108;101]%N. (* svm_maven_printable *)
+Definition k_maven_dot_tie : bytes := [115;118;109;95;109;97;118;101;110;95;100;111;116;95;116;105;101]%N.   (* svm_maven_dot_tie *)
 Definition k_dmvn_wide : bytes := [115;118;109;95;100;109;118;110;95;119;105;100;101]%N.                 (* svm_dmvn_wide *)
 Definition k_dmvn : bytes := [115;118;109;95;100;109;118;110]%N.                                  (* svm_dmvn *)
 
@@ -164,6 +165,21 @@ Definition run_MvnGem (kind : bytes) (a : sx) : option sx :=
     (* (str) -> (hypothesis printable_b of the C10 round-trip theorem on the parsed element list) *)
     Some (match a with
           | SL [SB s] => match mvn_elems_of s with Some l => SL [sx_bool (printable_b l)] | None => SL [SB sym_err] end
+          | _ => badcase end)
+  else if bytes_eqb kind k_maven_dot_tie then
+    (* (str) -> (hypotheses d_dot_b and c02_wide_b (dashify) of C02_maven_dotted_partial on the element list
+       parsed with the repaired zero test, the dashified list stands for the ComparableVersion tree of the string) *)
+    Some (match a with
+          | SL [SB s] =>
+              match mvn_parse_with true s with
+              | Some (Ok v) =>
+                  match v_ext v with
+                  | MavenExt l => SL [sx_bool (d_dot_b l && c02_wide_b (dashify l));
+                                      sx_bool (item_eqb (items_of (dashify l)) (comparable_version s))]
+                  | _ => SL [SB sym_err]
+                  end
+              | _ => SL [SB sym_err]
+              end
           | _ => badcase end)
   else if bytes_eqb kind k_spec_gem_norm then
     (* (str) -> ("ok" version string as Gem::Version prints it) | ("err") *)
